@@ -778,6 +778,33 @@ def gen_c12(rnd, n, thorough=False):
             if rnd.chance(0.4):
                 # the raw dump endpoint reads file and retention only (the other parameters are ignored)
                 lines.append('clirawdump q=%s' % (re.sub(r'TS\([^)]*\)', 'x', q) or '-'))
+        for _ in range(rnd.randint(2, 4)):
+            # the /sum handler on raw queries: well-formed ones in any parameter order, duplicated, missing and
+            # malformed parameters, patterns that match several files, one file, nothing
+            past = rnd.randint(0, 40)
+            params = [('item', 'CASEDIR.s.' + rnd.pick(['i1', 'i1', 'i2', 'zz'])), ('pattern', up.quote_plus(rnd.pick(['*.wsp', 'a.wsp', names[0], 'q*.wsp', '*']), safe='*~')),
+                      ('retention', str(rnd.pick([-1, -1] + list(range(k)) + [k]))),
+                      ('from', 'TS(@-%d)' % (past + rnd.randint(0, 30))), ('until', 'TS(@-%d)' % past), ('now', 'TS(@-%d)' % rnd.pick([0, 0, past]))]
+            kind = rnd.pick(['good', 'good', 'good', 'shuffled', 'dup', 'missing', 'badvalue'])
+            if kind != 'good':
+                rnd.shuffle(params)
+            if kind == 'dup':
+                j = rnd.randrange(len(params))
+                key = params[j][0]
+                other = {'item': 'CASEDIR.s.i2', 'pattern': 'a.wsp', 'retention': '0', 'from': 'TS(@-3)', 'until': 'TS(@-1)', 'now': 'TS(@-1)'}[key]
+                params.insert(rnd.randint(j + 1, len(params)), (key, other))
+            if kind == 'missing':
+                del params[rnd.randrange(len(params))]
+            if kind == 'badvalue':
+                j = rnd.randrange(len(params))
+                key = params[j][0]
+                bad = {'item': [''], 'pattern': [''], 'retention': ['', '+1', '1.5', '0x1', '99999999999999999999', '-'],
+                       'from': ['', '2020-01-01', 'TS(@-5)x', '1700000000'], 'until': ['', 'x', 'TS(@-5)Z'], 'now': ['', '0', 'now']}[key]
+                params[j] = (key, rnd.pick(bad))
+            q = '&'.join('%s=%s' % kv for kv in params)
+            lines.append('clirawsum q=%s' % (q or '-'))
+            if rnd.chance(0.3):
+                lines.append('clirawsum q=%s' % (q or '-'))
         if rnd.chance(0.6):
             # other spellings of a name ("." and ".." elements, doubled separators), among them names that
             # leave the base directory through "..": the file is the one the cleaned path names, whether the
